@@ -13,7 +13,7 @@ if [ -n "$(git status --porcelain)" ]; then echo "REPO DIRTY, refusing"; exit 2;
 trap 'cleanup' EXIT
 # the demonstration lives where its author ran it: _seeded/<a|b>/demo (some demos depend on the package path;
 # directories starting with "_" are invisible to ./... patterns, so every package directory is named explicitly)
-V=$(basename "$D"); V=${V##*-}; case "$V" in a|c|e|g|i|k|m|o|q) ORIG=a;; *) ORIG=b;; esac
+V=$(basename "$D"); V=${V##*-}; case "$V" in a|c|e|g|i|k|m|o|q|s|u|w|y) ORIG=a;; *) ORIG=b;; esac
 DEMODIR="$REPO/_seeded/$ORIG/demo"
 rundemo() {
   local rc=0 n=0
